@@ -282,7 +282,7 @@ func TestVerifC09(t *testing.T) {
 		for _, k := range []int{100, 1025, 3000} {
 			var s []scriptRead
 			for j := 0; j < k; j++ {
-				s = append(s, msg(verifh.Pick(r, []int{133, 134}), verifh.Pick(r, []int{0, 1, 64, 254}), 50+j%200))
+				s = append(s, msg(verifh.Pick(r, []int{133, 134}), verifh.Pick(r, []int{0, 1, 64, 254}), 50+j)) // every message from another host
 			}
 			s = append(s, msg(133, 255, 7))
 			emit("flood", mon, s, "stream:invalid-floods", fmt.Sprintf("k:%d", k))
